@@ -73,18 +73,32 @@ func clip(b []byte) string {
 type parseCfg struct {
 	avx512 bool
 	copy   bool
+	// sib: the input is placed in a buffer that held, and into a ParsedJson that has just parsed, a document of the same
+	// length and layout with other digits and letters (a caller refilling one buffer and recycling one result)
+	sib bool
+}
+
+// withSibling returns the four configurations plus one of them, chosen by the input, in "sib" mode.
+func parseCfgsSib(in []byte) []parseCfg {
+	cfgs := parseCfgs()
+	c := cfgs[int(evidHash(in)%uint64(len(cfgs)))]
+	c.sib = true
+	return append(cfgs, c)
 }
 
 func parseCfgs() []parseCfg {
 	var out []parseCfg
 	for _, k := range kernels() {
-		out = append(out, parseCfg{k, true}, parseCfg{k, false})
+		out = append(out, parseCfg{avx512: k, copy: true}, parseCfg{avx512: k, copy: false})
 	}
 	return out
 }
 
 func (c parseCfg) String() string {
 	s := kernelName(c.avx512)
+	if c.sib {
+		s = "same buffer and result object as a same-length document before/" + s
+	}
 	if c.copy {
 		return s + "/copy"
 	}
@@ -92,6 +106,24 @@ func (c parseCfg) String() string {
 }
 
 func parseWith(cfg parseCfg, in []byte, nd bool) (pj *simdjson.ParsedJson, err error) {
+	if cfg.sib {
+		withKernel(cfg.avx512, func() {
+			buf := sameLengthSibling(in, evidHash(in))
+			var prev *simdjson.ParsedJson
+			if nd {
+				prev, _ = simdjson.ParseND(buf, nil, simdjson.WithCopyStrings(cfg.copy))
+			} else {
+				prev, _ = simdjson.Parse(buf, nil, simdjson.WithCopyStrings(cfg.copy))
+			}
+			copy(buf, in) // the caller refills its buffer and hands the previous result back
+			if nd {
+				pj, err = simdjson.ParseND(buf, prev, simdjson.WithCopyStrings(cfg.copy))
+			} else {
+				pj, err = simdjson.Parse(buf, prev, simdjson.WithCopyStrings(cfg.copy))
+			}
+		})
+		return
+	}
 	withKernel(cfg.avx512, func() {
 		if nd {
 			pj, err = simdjson.ParseND(in, nil, simdjson.WithCopyStrings(cfg.copy))
@@ -107,7 +139,7 @@ func c01Check(c c01Case) error {
 	if err := oracleSelfCheck(c.In, v); err != nil {
 		return err
 	}
-	for _, cfg := range parseCfgs() {
+	for _, cfg := range parseCfgsSib(c.In) {
 		in := append([]byte(nil), c.In...)
 		pj, err := parseWith(cfg, in, false)
 		if err != nil && pj != nil {
